@@ -31,6 +31,7 @@ import AsmjitVerif.Lemmas.C08Sim
 import AsmjitVerif.Lemmas.C08Replay
 import AsmjitVerif.Lemmas.C08Replay2
 import AsmjitVerif.Lemmas.C08Groups
+import AsmjitVerif.Lemmas.C08Local
 
 namespace AsmjitVerif.Props.C08
 open AsmjitVerif.Builder
@@ -201,6 +202,37 @@ theorem sections_equal_of_local {β : Type} (asm : List Call → Nat → β)
     (ops : List Op) (r : Nat) (h : CallsOnly ops) (s : Nat) :
     asm (serialize (run (Builder.St.init r) ops)) s = asm (.section 0 :: (Spec.arun { regSize := r } ops).out) s :=
   hloc s _ _ (serialize_groups ops r h s)
+
+/-! ### the locality hypothesis against the CodeHolder model (Model/CodeHolder.lean, Model/Prog.lean of C03/C04)
+
+  Full-strength target: for every call sequence the final sections, label positions and relocation records of the CodeHolder model
+  depend only on the per-section projections.  That is FALSE for relocation-carrying calls (open finding C08-K2, `label_delta_witness`);
+  it is proved for label-reference-free code (`codeholder_data_local`). -/
+
+/-- discharged: section / embed / zero-align sequences - every section buffer of the CodeHolder model is determined by that section's own
+    projection of the sequence, however the sections were interleaved -/
+theorem codeholder_data_local (ops ops' : List CodeHolder.Op) (st : CodeHolder.State) (i : Nat)
+    (hd : ∀ op ∈ ops, CodeHolder.DataOp op = true) (hd' : ∀ op ∈ ops', CodeHolder.DataOp op = true)
+    (hc : st.cur < st.secs.length) (ha : st.addrTabSec = none)
+    (hp : CodeHolder.projOps i st.secs.length st.cur ops = CodeHolder.projOps i st.secs.length st.cur ops') :
+    CodeHolder.bufOf (CodeHolder.run st ops) i = CodeHolder.bufOf (CodeHolder.run st ops') i :=
+  CodeHolder.data_sections_equal ops ops' st i hd hd' hc ha hp
+
+/-- refuted at the witness of finding C08-K2: the same calls interleaved as issued (A) and grouped by section as the Builder serialises
+    them (B) have the same per-section projections but leave different bytes (and 1 vs 0 relocation records) in section 1 -/
+theorem label_delta_witness :
+    CodeHolder.bufOf (CodeHolder.run (CodeHolder.State.init .x64 CodeHolder.noBase) CodeHolder.deltaProgA) 1 ≠
+    CodeHolder.bufOf (CodeHolder.run (CodeHolder.State.init .x64 CodeHolder.noBase) CodeHolder.deltaProgB) 1 ∧
+    (CodeHolder.run (CodeHolder.State.init .x64 CodeHolder.noBase) CodeHolder.deltaProgA).relocs.length = 1 ∧
+    (CodeHolder.run (CodeHolder.State.init .x64 CodeHolder.noBase) CodeHolder.deltaProgB).relocs.length = 0 := by
+  decide
+
+example : ∀ i, CodeHolder.projOps i 2 0 (CodeHolder.deltaProgA.drop 3) = CodeHolder.projOps i 2 0 (CodeHolder.deltaProgB.drop 3) := by
+  intro i
+  match i with
+  | 0 => rfl
+  | 1 => rfl
+  | n + 2 => simp [CodeHolder.deltaProgA, CodeHolder.deltaProgB, CodeHolder.projOps]
 
 -- non-vacuity: labels, typed data, a new section, then re-entry into section 0
 def sampleCalls : List Op :=
